@@ -57,6 +57,21 @@ type caseRun struct {
 
 	notes   []string // anomalies seen by scripts (evaluated as spec failures)
 	notesMu sync.Mutex
+
+	begunAt time.Time     // rig a: when the shutdown was requested (just before the cancellation / the first signal)
+	holdGo  chan struct{} // closed when the connection whose Accept is held (held.go) may be made
+
+	// what is not the case's own (stray.go)
+	strayOrigin atomic.Int64 // requests that reached the origin and do not carry this case's host name
+	addrMu      sync.Mutex
+	dialed      map[string]bool // local addresses of the case's own client sockets
+	accepted    []string        // remote addresses of the sockets the proxy's listener accepted
+
+	// Host "group" (group.go)
+	runRetCh chan error    // what HTTPProxy.Run returned (the group's return is hp.Done())
+	groupUp  chan struct{} // closed when the group's members have been started (its NotifyContext is registered)
+	xrEvent  *Event
+	xrMu     sync.Mutex
 }
 
 func (cr *caseRun) originHost() string   { return "origin-" + cr.nonce + ".test" }
@@ -182,12 +197,27 @@ func connOfTarget(t string) (k, j int, ok bool) {
 func (cr *caseRun) startOrigins() error {
 	var err error
 	cr.origin, err = rig.NewPeer("origin", func(w *rig.PeerConn, ex *rig.Exchange) bool {
+		// a request is this case's only if it names this case's origin (the host name carries the case's nonce): the
+		// port may have been somebody else's a moment ago, and that somebody's late dial — "GET http://origin-<their
+		// nonce>.test/k/0" — must not be taken for a request of connection k of THIS case (stray.go)
+		if !cr.ownRequest(ex.Req) {
+			cr.strayOrigin.Add(1)
+			w.Write([]byte("HTTP/1.1 421 Misdirected Request\r\nContent-Length: 0\r\nConnection: close\r\n\r\n"))
+			return false
+		}
 		k, j, ok := connOfTarget(ex.Req.Target)
 		if !ok || k >= len(cr.conns) {
 			w.Write([]byte("HTTP/1.1 400 Bad Request\r\nContent-Length: 0\r\n\r\n"))
 			return true
 		}
 		c := cr.conns[k]
+		// … and it is request j of connection k only if that connection has sent a request j, once
+		switch c.originSaw(j) {
+		case sawUnsent:
+			cr.note("conn %d: the origin received request %d of this connection (under this case's host name), which its client has not sent", k, j)
+		case sawTwice:
+			cr.note("conn %d: the origin received request %d of this connection a second time", k, j)
+		}
 		cr.log.Add("o", k)
 		c.originGot(j)
 		size := 64
@@ -336,14 +366,24 @@ func (cr *caseRun) startA() error {
 	}
 	redirect := forwarder.DialRedirectFromHostPortPairs(routes)
 	var wrap func(net.Listener) net.Listener
-	if cr.c.Family == "runend" && !cr.c.TLS && !cr.c.PP && cr.c.closeScripted() {
+	if cr.c.Family == "runend" && !cr.c.TLS && !cr.c.PP && (cr.c.closeScripted() || cr.c.heldIndex() >= 0) {
 		// on top of the proxy's own listener: what martian serves (and closes) is the tracked connection
 		cr.tracker = newConnTracker(cr.c.Conns)
+		if cr.c.heldIndex() >= 0 {
+			cr.tracker.hold = newAcceptHold(cr.known)
+		}
 		wrap = func(l net.Listener) net.Listener { return &trackListener{Listener: l, t: cr.tracker} }
+	}
+	var onAccept func(net.Conn)
+	if !cr.c.PP {
+		// whose connections the listener hands out (on a PROXY-protocol listener RemoteAddr waits for the header: not asked)
+		onAccept = func(c net.Conn) { cr.noteAccepted(c.RemoteAddr().String()) }
 	}
 	p, err := rig.StartProxy(rig.ProxyOpts{
 		ConnectTo:    routes,
 		WrapListener: wrap,
+		OnAccept:     onAccept,
+		Host:         cr.groupHost(),
 		Transport: func(tc *forwarder.HTTPTransportConfig) {
 			// the dial of a "dial" connection's CONNECT is held back here (the redirect runs before the dialer
 			// connects); with an upstream proxy the upstream proxy holds back its 200 instead
@@ -435,8 +475,12 @@ func (cr *caseRun) startB() error {
 	cr.addr = l.Addr().String()
 	cr.tracker = newConnTracker(cr.c.Conns)
 	cr.tracker.tls = cr.c.TLS
+	l = &addrListener{Listener: l, cr: cr}
 	if cr.c.Family == "ctl" {
 		// below TLS: martian looks for *tls.Conn at the top
+		if cr.c.heldIndex() >= 0 {
+			cr.tracker.hold = newAcceptHold(cr.known)
+		}
 		l = &trackListener{Listener: l, t: cr.tracker}
 	}
 	cr.ln = l
